@@ -80,3 +80,11 @@ func URLParts(uri, scheme, user string, hasUser bool, hostport, rest string)
 // written can be read back in chunks of arbitrary size (every cut position is
 // explored).
 func NewStream() io.ReadWriteCloser
+
+// JSONArgs builds a JSON-RPC params payload of the given shape: a JSON array
+// (or, with isArray=false, a non-array value) whose positions have the JSON
+// kinds "string", "number", "bool", "object", "array" or "null".
+func JSONArgs(isArray bool, kinds ...string) []byte
+
+// ReflectCalls counts the method invocations made through reflect.Value.Call so far.
+func ReflectCalls() int
